@@ -138,6 +138,10 @@ fn noise_task(seed: u64, instrs: &[String]) -> TaskSpec {
             v.push(ISpec::Int(gen_small_int(&mut r)));
             v.push(i("GRAPH.NODE*ADD"));
         }
+        if r.chance(1, 12) {
+            // a copy keeps growing (the registry has no way back to the original)
+            v.extend([i("GRAPH.DUP"), ISpec::Int(1), i("GRAPH.NODE*ADD"), ISpec::Int(2), i("GRAPH.NODE*ADD")]);
+        }
     }
     TaskSpec {
         cfg,
@@ -292,6 +296,9 @@ struct Intruders {
     sched: Rng,
     sched_hash: u64,
     switches: u64,
+    /// every id a GRAPH.NODE*ADD of any task of this simulated process has received
+    ids_seen: std::collections::BTreeSet<i32>,
+    ids_twice: Vec<i32>,
 }
 
 impl Intruders {
@@ -309,10 +316,22 @@ impl Intruders {
             seam::set_map_salt(t.salt);
             let iset = &mut self.isets[t.iset_slot];
             let cache = &self.caches[t.iset_slot];
+            let adds_node = matches!(t.st.exec_stack.get(0), Some(pushr::push::item::Item::InstructionMeta { name }) if name == "GRAPH.NODE*ADD")
+                && t.st.graph_stack.size() > 0
+                && t.st.int_stack.size() > 0;
+            let nodes_before = t.st.graph_stack.get(0).map(|g| g.node_size()).unwrap_or(0);
             let r = caught(|| PushInterpreter::step(&mut t.st, iset, cache));
             match r {
                 Ok(true) => t.done = true,
                 Ok(false) => {
+                    // (the node count tells whether the instruction really ran: a wrapper may have skipped it)
+                    if adds_node && t.st.graph_stack.get(0).map(|g| g.node_size()).unwrap_or(0) == nodes_before + 1 {
+                        if let Some(id) = t.st.int_stack.get(0) {
+                            if !self.ids_seen.insert(*id) {
+                                self.ids_twice.push(*id);
+                            }
+                        }
+                    }
                     t.steps += 1;
                     if t.steps >= t.limit {
                         t.done = true;
@@ -420,6 +439,8 @@ pub fn execute(sc: &IsoSc, wrapped: &mut InstructionSet, names: &[String]) -> Ex
         sched: Rng::new(sc.sched_seed),
         sched_hash: 1,
         switches: 0,
+        ids_seen: Default::default(),
+        ids_twice: vec![],
     };
     let mut env2 = env.clone();
     env2.draw_budget = 50_000_000;
@@ -434,6 +455,9 @@ pub fn execute(sc: &IsoSc, wrapped: &mut InstructionSet, names: &[String]) -> Ex
         let mut st = sc.subject.state.build(&sc.subject.cfg);
         load_program(&mut st, wrapped, &sc.subject.prog, false);
         let res = caught(|| format!("{:?}", PushInterpreter::run(&mut st, wrapped)));
+        // the simulated process goes on below: its node counter continues where it stands
+        let counter = seam::set_counter_override(None);
+        seam::set_counter_override(counter);
         let mut core = simenv::end();
         let mut h = core.hooks.take().unwrap();
         let h = h.as_any().downcast_mut::<RunHooks>().unwrap();
@@ -452,6 +476,9 @@ pub fn execute(sc: &IsoSc, wrapped: &mut InstructionSet, names: &[String]) -> Ex
         left |= core.left_envelope;
         // finish the crowd below
         simenv::begin(&env2, crowd_envelope(), names, None);
+        if counter.is_some() {
+            seam::set_counter_override(counter);
+        }
     } else {
         simenv::begin(&env2, crowd_envelope(), names, None);
     }
@@ -497,6 +524,14 @@ pub fn execute(sc: &IsoSc, wrapped: &mut InstructionSet, names: &[String]) -> Ex
             break;
         }
     }
+    if !intr.ids_twice.is_empty() {
+        vs.push(viol(
+            "ids",
+            "GRAPH.NODE*ADD: a node id handed out twice in one process",
+            format!("ids {:?} were returned by more than one GRAPH.NODE*ADD among the tasks of this run ({} ids handed out)", &intr.ids_twice[..intr.ids_twice.len().min(8)], intr.ids_seen.len()),
+        ));
+    }
+    stats.probes.insert("node_ids_handed_out".into(), intr.ids_seen.len() as u64);
     stats.steps = intr.tasks.iter().map(|t| t.steps).sum();
     stats.events = intr.switches;
     stats.draws = core.draws;
@@ -654,7 +689,8 @@ pub fn cli_case(seed: u64, names: &[String], bin_path: &str) -> Option<(String, 
     let mut st = PushState::new();
     let ok = caught(|| {
         pushr::push::parser::PushParser::parse_program(&mut st, &iset, &text);
-        pushr::push::parser::PushParser::copy_to_code_stack(&mut st);
+        // the library's own copy onto CODE (what run() does), not the front end's twin of it
+        PushInterpreter::copy_to_code_stack(&mut st);
         st.name_bindings.insert("BIN".to_string(), pushr::push::item::Item::id(bin_path.to_string()));
         let cache = iset.cache();
         let mut steps = 0;
